@@ -46,14 +46,14 @@ def scalarize(g, w):
 
 def cases(tier, seed):
     out = []
-    reps = 1 if tier == 'quick' else 20
+    reps = 1 if tier == 'quick' else 60
     for (name, shape, dom, f) in vector_programs():
         for rep in range(reps):
             out.append({'kind': 'hist', 'seed': case_seed('C06', seed, name, rep), 'params': {'prog': name, 'len': 6 if tier == 'quick' else 10}})
     for (name, shape, dom, f) in vector_programs()[:: (3 if tier == 'quick' else 1)]:
         for rep in range(1 if tier == 'quick' else 4):
             out.append({'kind': 'nested', 'seed': case_seed('C06', seed, 'nested', name, rep), 'params': {'prog': name}})
-    for i in range(60 if tier == 'quick' else 8000):
+    for i in range(60 if tier == 'quick' else 40000):
         out.append({'kind': 'hist', 'seed': case_seed('C06', seed, 'comp', i), 'params': {'prog': 'comp', 'len': 6 if tier == 'quick' else 10}})
     return out
 
